@@ -619,7 +619,28 @@ def fam_fft(tier, kind=R):
                 yield c(n, "fft.%s(x,%r) positional" % (n, ax), lambda np, x, _n=n, _a=ax: getattr(np.fft, _n)(x, _a), [kind(*s)])
 
 
-FAMILIES = {"unary": fam_unary, "binary": fam_binary, "reduce": fam_reduce, "shape": fam_shape, "contract": fam_contract,
+def fam_operators(tier, kind=R):
+    """functions wrapped by autograd's function transformers that install their own derivative rule
+    (checkpoint): positional layouts in which the traced argument is not the first one"""
+    import autograd
+
+    W0 = onp.array([[0.5, -1.0, 0.25], [1.5, 0.75, -0.5]])
+    X0 = onp.array([0.25, -0.75, 1.25])
+
+    def ck(np, body):
+        return autograd.checkpoint(body)
+
+    yield Config("checkpoint", "checkpoint(lambda W,x: tanh(W@x))(W0 const, x)", lambda np, x: ck(np, lambda w, x_: np.tanh(np.dot(w, x_)))(W0, x), [kind(3)], 0)
+    yield Config("checkpoint", "checkpoint(lambda W,x: tanh(W@x))(W, x0 const)", lambda np, w: ck(np, lambda w_, x_: np.tanh(np.dot(w_, x_)))(w, X0), [kind(2, 3)], 0)
+    for k in (0, 1):
+        yield Config("checkpoint", "checkpoint(lambda W,x: tanh(W@x))(W, x) both traced", lambda np, w, x: ck(np, lambda w_, x_: np.tanh(np.dot(w_, x_)))(w, x), [kind(2, 3), kind(3)], k)
+    yield Config("checkpoint", "checkpoint(f)(W0 const, 2.0, x, scale=1.5) three slots, keyword", lambda np, x: ck(np, lambda w, m, x_, scale=1.0: np.sum(w, axis=0) * x_ * m * scale)(W0, 2.0, x, scale=1.5), [kind(3)], 0)
+    yield Config("checkpoint", "sin(checkpoint(f)(W0 const, sin(x)))", lambda np, x: np.sin(ck(np, lambda w, x_: np.dot(w, x_ * x_))(W0, np.sin(x))), [kind(3)], 0)
+    yield Config("checkpoint", "checkpoint(f)(x, x) same traced value in both slots", lambda np, x: ck(np, lambda a, b: a * np.cos(b))(x, x), [kind(3)], 0)
+    yield Config("checkpoint", "checkpoint(f)(scalar const, x)", lambda np, x: ck(np, lambda a, b: a * b * b)(3.0, x), [kind(2)], 0)
+
+
+FAMILIES = {"operators": fam_operators, "unary": fam_unary, "binary": fam_binary, "reduce": fam_reduce, "shape": fam_shape, "contract": fam_contract,
             "linalg": fam_linalg, "fft": fam_fft}
 
 
@@ -632,6 +653,30 @@ def real_grid(tier, families=None):
             cfg.tags.add(n)
             out.append(cfg)
     return _uniq(out)
+
+
+def complexified_grid(tier, families=("shape", "reduce", "contract")):
+    """the real grid's shape / reduction / contraction families with every symbolic real array replaced by a
+    complex one (C09 thorough): the same call configurations, complex arguments"""
+    out = []
+    for n in families:
+        for cfg in FAMILIES[n]("quick", kind=Cx):
+            if not any(getattr(a, "kind", None) in ("c", "cs") for a in _flat_args(cfg.args)):
+                continue
+            cfg.label = "CPLXGRID " + cfg.label
+            cfg.tags.update(("complex", n))
+            out.append(cfg)
+    return _uniq(out)
+
+
+def _flat_args(args):
+    for a in args:
+        if isinstance(a, dict):
+            yield from _flat_args(a.values())
+        elif isinstance(a, (tuple, list)):
+            yield from _flat_args(a)
+        else:
+            yield a
 
 
 # ----------------------------------------------------------------------------------------------
@@ -920,6 +965,15 @@ def nested_grid(tier):
     n("inner ignores outer", lambda np, x: x * egrad(lambda y: y * y)(x), lambda np, x: x * 2 * x, [R(2)])
     n("scalar nested", lambda np, x: x * grad(lambda y: x * y * y)(x), lambda np, x: 2 * x ** 3, [SC])
     n("hvp-like: grad(sum(grad f * v))", lambda np, x: grad(lambda z: np.sum(grad(lambda w: np.sum(w ** 3))(z) * x))(x), lambda np, x: 6 * x * x, [R(2)])
+    # library operators that nest two differentiations internally, w.r.t. a NON-default argument that the function
+    # shares with argument 0 (the levels must differentiate the same variable): f(a, y) = sum(a*y^3) + sum(a^2 * y)
+    hvp, hes, mhvp = autograd.hessian_vector_product, autograd.hessian, autograd.make_hvp
+    f2 = lambda np: (lambda a, y: np.sum(a * y ** 3) + np.sum(a * a * y))
+    n("hessian_vector_product(f, argnum=1)(a=x, y=2x, v=x)", lambda np, x: hvp(f2(np), 1)(x, 2.0 * x, x), lambda np, x: 6 * x * (2 * x) * x, [R(2)])
+    n("hessian_tensor_product(f, 1) at constant a", lambda np, x: autograd.hessian_tensor_product(f2(np), 1)(onp.array([3.0, 5.0]), x, x), lambda np, x: 6 * onp.array([3.0, 5.0]) * x * x, [R(2)])
+    n("make_hvp(f, 1)(a=x, y=x)(v)", lambda np, x: mhvp(f2(np), 1)(x, x)[0](onp.array([1.0, -2.0])), lambda np, x: 6 * x * x * onp.array([1.0, -2.0]), [R(2)])
+    n("diag hessian(f, 1)(a=x, y=x)", lambda np, x: np.diag(hes(f2(np), 1)(x, x)), lambda np, x: 6 * x * x, [R(2)])
+    n("grad(grad(f,1),1) mixed with grad(f,0)", lambda np, x: egrad(egrad(f2(np), 1), 1)(x, x) + egrad(f2(np), 0)(x, x), lambda np, x: 6 * x * x + x ** 3 + 2 * x * x, [R(2)])
     n("two inner derivatives summed", lambda np, x: egrad(lambda y: x * y)(x) + dfw(lambda y: y * y * x, x), lambda np, x: x + 2 * x * x, [R(2)])
     return _uniq(out)
 
